@@ -43,17 +43,20 @@ func freeUDPPort() int {
 
 // inputGen builds hostile input for one link.
 type inputGen struct {
-	r      *vh.RNG
-	keyRaw []byte
-	ts     uint64
-	trIdx  int
-	hbs    int
+	// rejected counts, per session() call, the complete frames with a wrong checksum / signature put into the session
+	rejected int
+	r        *vh.RNG
+	keyRaw   []byte
+	ts       uint64
+	trIdx    int
+	hbs      int
 }
 
 // session returns the bytes of one session and the uids of its valid frames.
 func (g *inputGen) session(sess, nItems int, v1ok bool) ([]byte, []uint64) {
 	var out []byte
 	var uids []uint64
+	g.rejected = 0
 	for i := 0; i < nItems; i++ {
 		uid := uint64(g.trIdx)<<48 | uint64(sess)<<32 | uint64(i+1)
 		g.ts += 1 + uint64(g.r.Intn(5))
@@ -72,6 +75,7 @@ func (g *inputGen) session(sess, nItems int, v1ok bool) ([]byte, []uint64) {
 			}
 			w[hdr+1+g.r.Intn(7)] ^= 0x40 // payload byte: extent unchanged
 			out = append(out, w...)
+			g.rejected++
 		case k == 1 && g.keyRaw != nil: // complete frame with a wrong signature
 			if g.r.Chance(1, 2) {
 				// ... dated far ahead of the genuine traffic: a rejected frame must leave nothing behind (replay window included)
@@ -111,6 +115,7 @@ type c10link struct {
 	tr       *fake.Transport
 	sessions [][]byte
 	expect   [][]uint64
+	rejected []int // per session: complete frames with a wrong checksum in it
 }
 
 // feed pushes the sessions into the transport in random chunks; sessions are separated by one
@@ -226,6 +231,7 @@ func c10custom(rep *vh.Report, seed uint64, idx int) {
 			data, uids := g.session(s, vh.Pick(20, 60)+r.Intn(vh.Pick(200, 700)), true)
 			l.sessions = append(l.sessions, data)
 			l.expect = append(l.expect, uids)
+			l.rejected = append(l.rejected, g.rejected)
 			totalValid += len(uids)
 		}
 		links[i] = l
@@ -372,6 +378,14 @@ func c10custom(rep *vh.Report, seed uint64, idx int) {
 				rep.Violation("what="+classifySeq(got, want)+" ep=custom",
 					fmt.Sprintf("link %d session %d: %d frame events for %d valid frames fed (or wrong order / channel)", li, si, len(got), len(want)),
 					map[string]interface{}{"link": li, "session": si, "consumer_mode": mode, "key": withKey, "first_got": head(got), "first_want": head(want)})
+			}
+			if !closeFirst && eqU64(got, want) && si < len(l.rejected) && l.rejected[si] > 0 {
+				// the whole session went through the reader; the complete frames it refused surface as parse-error events
+				rep.Count("sessions_with_rejected_frames", 1)
+				if chans[si].Parse == 0 {
+					rep.Violation("what=no-parse-error ep=custom", fmt.Sprintf("a session with %d complete frames carrying a wrong checksum produced no parse-error event at all", l.rejected[si]),
+						map[string]interface{}{"link": li, "session": si, "key": withKey})
+				}
 			}
 			if ended && !closeFirst {
 				if chans[si].State != 2 {
@@ -620,7 +634,7 @@ func TestC10(t *testing.T) {
 		"unsigned frames on signed links, junk without markers, in random chunks; consumer fast / slow / bursty; 2..4 goroutines issuing Write*; heartbeats at 2 ms; schedule perturbation at " +
 		"the hook points; a quarter of the scenarios close the node first (safety half only). Per-channel automaton online + delivered-id sequence vs fed sequence offline. " +
 		"distinct = distinct interleaving signatures (hash of the hook-point trace)")
-	rep.Assume("exactly one parse error per rejected item is not demanded")
+	rep.Assume("exactly one parse error per rejected item is not demanded; at least one parse-error event per session that carried complete frames with a wrong checksum is")
 	rep.Assume("UDP datagrams may be lost by the kernel under load: for UDP channels only order / uniqueness / attribution are asserted")
 	seed := shardSeed()
 	n := vh.Pick(40, 700)
